@@ -6,9 +6,16 @@ rows = []
 for p in sorted(glob.glob(os.path.join(here, "seeded", "*", "meta.json"))):
     m = json.load(open(p))
     name = p.split(os.sep)[-2]
-    caught = ", ".join(f"{c} ({'; '.join(m['checks_run_against_it'][c]['signatures'][:2])})" for c in m.get("caught_by", [])) or "— (missed)"
-    missed = [c for c, v in m.get("checks_run_against_it", {}).items() if v["exit"] != 1]
+    fe = m.get("final_evaluation")
+    if fe:          # the re-evaluation of every stored change against the final checks (tools/reseed_all.py)
+        caught = ", ".join(f"{c} ({'; '.join(fe['checks'][c]['signatures'][:2])})" for c in fe.get("caught_by", [])) or "— (missed)"
+        missed = [c for c, v in fe.get("checks", {}).items() if v["exit"] != 1]
+    else:
+        caught = ", ".join(f"{c} ({'; '.join(m['checks_run_against_it'][c]['signatures'][:2])})" for c in m.get("caught_by", [])) or "— (missed)"
+        missed = [c for c, v in m.get("checks_run_against_it", {}).items() if v["exit"] != 1]
     hist = m.get("history", "")
+    if m.get("ported"):
+        hist = (hist + " " if hist else "") + "[" + m["ported"] + "]"
     rows.append(f"| {name} | {m['summary'][:230].replace('|', '/')} | {m['needs'][:200].replace('|', '/')} | {caught[:260].replace('|', '/')} | {('not by ' + ', '.join(missed) + '. ') if missed else ''}{hist.replace('|', '/')} |")
 block = ("<!-- SEEDED:BEGIN -->\n"
          "| Seeded change | What it does | Needs to manifest | Caught by (quick tier; signatures) | Notes |\n|---|---|---|---|---|\n" + "\n".join(rows) + "\n<!-- SEEDED:END -->")
